@@ -14,6 +14,8 @@ def step (line : String) : String :=
   | "c19sx" :: a => Drv.C19.opSX a
   | "c19so" :: a => Drv.C19.opSO a
   | "c19n" :: a => Drv.C19.opN a
+  | "c14c" :: a => Drv.C14.opCreate a
+  | "c14e" :: a => Drv.C14.opEmbed a
   | "c05hy" :: a => Drv.C05.opHy a
   | "c05pd" :: a => Drv.C05.opPD a
   | "c06tz" :: a => Drv.C05.opTZ a
